@@ -76,8 +76,20 @@ GENERATORS = [
 ]
 
 
+def _bounded_fallback(rec, clause):
+    """no dedicated replay: the native witness is searched by the bounded stand-in of the same property on the same tree
+    (a neighbourhood search, not a replay of the counter-model itself - the replay file says so)"""
+    prop = rec.get("property") or rec["id"][:3]
+    return ("# neighbourhood search by the bounded stand-in of the property (no dedicated replay for this obligation)\n"
+            "import sys, importlib, os\n"
+            f"if not os.path.exists(os.path.join('native', 'bounded', '{prop}.py')):\n    sys.exit(0)\n"
+            f"res = importlib.import_module('native.bounded.{prop}').run('quick', 0).to_json()\n"
+            "for f in res['failures'][:5]:\n    print('FAILING INPUT', f['case'], '::', f['what'])\n"
+            "sys.exit(1 if res['failures'] else 0)\n")
+
+
 def find(oid):
     for rx, g in GENERATORS:
         if rx.search(oid):
             return g
-    return None
+    return _bounded_fallback
